@@ -49,6 +49,10 @@ PROPS['C10'] = {'module': 'conv',
     'technique': 'TLC exhaustive model check over all (source, destination) small format pairs, all codes, 10 modes (raw-shift-and-store = exact value quantized; preserved when representable) + replay of every pair through 11 conversion routes on the real code + TLC trace validation of seeded chains of up to 6 conversions on formats up to 52 bits',
     'level_text': 'For every pair of formats with n_word<=W and every source code TLC checks that the implementation route (shift the raw code by the fraction-length difference, store raw with rounding) equals the exact source value quantized into the destination under the destination modes; every pair is executed on the real code by resize (sizes / dtype string), like=, like(), constructor from Fxp (sizes / dtype), call, set_val, equal(), element-wise and slice indexed assignment, for scalars, 1-D and 2-D arrays, and TLC judges destination format, shape, codes, value preservation and that the source is unchanged.',
     'level_note': _AR_NOTE}
+PROPS['C06'] = {'module': 'infer',
+    'technique': 'TLC exhaustive model check of the transcribed _init_size/set_best_sizes loops against the minimal exact format (all arrays of <=2 dyadics, 3 signedness settings, 5 variants of given sizes, cap scaled to 8) + replay of every configuration on the real constructor (n_word_max=8) + TLC trace validation of seeded dyadics up to 2^40/2^-20 and capped random doubles',
+    'level_text': 'FxpBest transcribes the fraction-search loop, the msb integer-bit loop and the caps; TLC checks for every array of up to two values k/2^f (|k|<=KMAX, f<=FMAX), default/signed/unsigned and each variant of unspecified sizes that it yields the minimal format (minimality also stated directly by quantifying over all smaller formats), never above the cap; every configuration is executed on the real constructor and TLC judges format, exactness of every stored value, absence of flags, and the capped branch (error < 1 LSB, flagged); dyadics to 2^40 with f<=20, arrays <=5, boundary values +-2^k and 2^k-LSB, and random doubles with the real cap 64 are sampled.',
+    'level_note': _AR_NOTE + ' The significand of the small world is scaled with the cap (5-bit significands for cap 8) as explained in DESIGN.md section 5 C06.'}
 
 NOT_APPLICABLE = {}
 
@@ -112,6 +116,14 @@ def default_account(chk, obs):
                 ia, ib = unwint(a), unwint(b)
                 if ia in ex or ib in ey:
                     seen.add(key + (ia, ib))
+        elif k == 'infer':
+            ev += len(row.get('v', []))
+            z = row.get('z', {})
+            if z and z.get('w', 0) > 0:
+                lo, hi = _ext(z)
+                cs = [unwint(c) for c in row.get('c', [])]
+                if any(c in (lo, hi) for c in cs) or z.get('w') == row.get('cap'):
+                    seen.add((k, row.get('sa'), row.get('given'), row.get('nw'), row.get('nf'), row.get('ni'), tuple(cs), z.get('w'), z.get('f')))
         else:
             ev += max(1, len(row.get('v', [])) if isinstance(row.get('v'), list) else 1)
             nt = row.get('nt')
@@ -128,5 +140,5 @@ def default_account(chk, obs):
     chk.nontrivial += len(seen)
     chk.rule = ('cases = every (configuration, input/operand codes) of the TLC small world executed on the real code plus seeded '
                 'boundary-directed wide-format cases; non-trivial (measured from observations, distinct): stores whose write raised '
-                'overflow/underflow/inaccuracy; arithmetic/division cases with an operand at an extreme code of its format; other kinds: the '
+                'overflow/underflow/inaccuracy; arithmetic/division cases with an operand at an extreme code of its format; inference cases whose inferred format is at the cap or holds an extreme code; other kinds: the '
                 'boundary tags the executor attached (row.nt); raised errors by (route, carrier, type)')
